@@ -8,7 +8,10 @@
     The speed [Parameter<ClockSpeed>] is C06's [param] with [V = cspeed] and
     [interp = cspeed_interpolate] (interpolation in the target's unit).
     Generic over [Num]: the binary64 instance is compared bit-for-bit with the implementation,
-    the rational instance carries the theorems. *)
+    the rational instance carries the theorems.
+    [Clock::update] is modelled as it is since the F7 repair ([tick_update]: floor, saturating cast,
+    one subtraction; total, no fuel anywhere in this file's renderer); the tick LOOP it replaced is
+    kept as the counter-model [tick_loop_old] / [clock_update_old] of the regression theorems. *)
 From Coq Require Import ZArith List Bool.
 From KV Require Import Base.Outcome Base.Num C19.Model C06.Model.
 Import ListNotations.
@@ -28,14 +31,29 @@ Section Generic.
   (** [Clock::default]: what [SelfReferentialResourceStorage] keeps as its dummy *)
   Definition dummy_clock : clock := clock_new (Fixed (TicksPerSecond n0)).
 
-  (** [while *tick_timer >= 1.0 { *tick_timer -= 1.0; *ticks += 1; }] ([u64] addition is checked
+  (** The tick split of [Clock::update] as it is since the F7 repair:
+      [if *tick_timer >= 1.0 { let whole_ticks = tick_timer.floor();
+         *ticks = ticks.saturating_add(whole_ticks as u64);
+         *tick_timer = if whole_ticks.is_finite() { *tick_timer - whole_ticks } else { 0.0 }; }]
+      ([as u64] saturates and sends NaN to 0; no loop, no checked arithmetic: a total function;
+      [NaN >= 1.0] is false, so a NaN or negative timer is left as it is) *)
+  Definition tick_update (tk : Z) (timer : T) : Z * T :=
+    if nleb n1 timer then
+      let whole := nfloor timer in
+      let tk' := Z.min u64_max (tk + ntoU64 whole) in
+      let timer' := if nisfinite whole then nsub timer whole else n0 in
+      (tk', timer')
+    else (tk, timer).
+
+  (** COUNTER-MODEL (the code before the repair, finding F7):
+      [while *tick_timer >= 1.0 { *tick_timer -= 1.0; *ticks += 1; }] ([u64] addition is checked
       in debug builds); the trip count depends on the data, so: fuel, and [Hang] when it runs out *)
-  Fixpoint tick_loop (fuel : nat) (tk : Z) (timer : T) : outcome (Z * T) :=
+  Fixpoint tick_loop_old (fuel : nat) (tk : Z) (timer : T) : outcome (Z * T) :=
     if nleb n1 timer then
       match fuel with
       | O => Hang
       | S f => let timer' := nsub timer n1 in
-               let! tk' := add_chk tk 1 in tick_loop f tk' timer'
+               let! tk' := add_chk tk 1 in tick_loop_old f tk' timer'
       end
     else Ok (tk, timer).
 
@@ -44,14 +62,24 @@ Section Generic.
     match s with NotStarted => (0, n0) | Started tk fr => (tk, fr) end.
 
   (** [Clock::update].  (Its return value, the new tick count, is discarded by [Clocks::update].) *)
-  Definition clock_update (fuel : nat) (c : clock) (dt : T) (i : info T) : outcome clock :=
+  Definition clock_update (c : clock) (dt : T) (i : info T) : outcome clock :=
     let! (sp, _) := param_update powf (cspeed T) cspeed_interpolate (c_speed c) dt i in
     if negb (c_ticking c) then Ok {| c_ticking := false; c_speed := sp; c_state := c_state c |}
     else
       (* NotStarted becomes Started { 0, 0.0 } first *)
       let '(tk, fr) := state_time (c_state c) in
       let timer := nadd fr (nmul (as_tps (p_raw sp)) dt) in
-      let! (tk', fr') := tick_loop fuel tk timer in
+      let '(tk', fr') := tick_update tk timer in
+      Ok {| c_ticking := true; c_speed := sp; c_state := Started tk' fr' |}.
+
+  (** COUNTER-MODEL: [Clock::update] before the repair, around [tick_loop_old] *)
+  Definition clock_update_old (fuel : nat) (c : clock) (dt : T) (i : info T) : outcome clock :=
+    let! (sp, _) := param_update powf (cspeed T) cspeed_interpolate (c_speed c) dt i in
+    if negb (c_ticking c) then Ok {| c_ticking := false; c_speed := sp; c_state := c_state c |}
+    else
+      let '(tk, fr) := state_time (c_state c) in
+      let timer := nadd fr (nmul (as_tps (p_raw sp)) dt) in
+      let! (tk', fr') := tick_loop_old fuel tk timer in
       Ok {| c_ticking := true; c_speed := sp; c_state := Started tk' fr' |}.
 
   (** the three command slots of a clock handle (each a last-write-wins register, C07) *)
@@ -99,7 +127,7 @@ Section Generic.
     {| sl_life := sl_life s; sl_marked := sl_marked s; sl_clock := c; sl_cmds := sl_cmds s; sl_shared := sl_shared s |}.
 
   (** [Clocks::update] = [for_each] in key order; clocks earlier in the order have already advanced *)
-  Fixpoint clocks_update_from (fuel : nat) (todo : list nat) (slots : list slot) (dt : T) : outcome (list slot) :=
+  Fixpoint clocks_update_from (todo : list nat) (slots : list slot) (dt : T) : outcome (list slot) :=
     match todo with
     | [] => Ok slots
     | k :: todo' =>
@@ -107,15 +135,15 @@ Section Generic.
         | Some s =>
             match sl_life s with
             | Live =>
-                let! c' := clock_update fuel (sl_clock s) dt (info_for slots k) in
-                clocks_update_from fuel todo' (set_nth k (with_clock s c') slots) dt
-            | _ => clocks_update_from fuel todo' slots dt
+                let! c' := clock_update (sl_clock s) dt (info_for slots k) in
+                clocks_update_from todo' (set_nth k (with_clock s c') slots) dt
+            | _ => clocks_update_from todo' slots dt
             end
-        | None => clocks_update_from fuel todo' slots dt
+        | None => clocks_update_from todo' slots dt
         end
     end.
-  Definition clocks_update (fuel : nat) (slots : list slot) (dt : T) : outcome (list slot) :=
-    clocks_update_from fuel (seq 0 (length slots)) slots dt.
+  Definition clocks_update (slots : list slot) (dt : T) : outcome (list slot) :=
+    clocks_update_from (seq 0 (length slots)) slots dt.
 
   (** [Clocks::on_start_processing]: remove marked clocks, insert new ones, then per clock
       [Clock::on_start_processing] (commands, then [update_shared]) *)
@@ -197,9 +225,9 @@ Section Generic.
 
   (** [process_chunk]: the clocks advance by the whole chunk ([dt * num_frames]) BEFORE the mixer
       (and with it every waiting sound and every parameter) runs *)
-  Definition sys_chunk (fuel : nat) (y : sys) (frames : Z) : outcome sys :=
+  Definition sys_chunk (y : sys) (frames : Z) : outcome sys :=
     let d := nmul (y_dt y) (nofZ frames) in
-    let! slots := clocks_update fuel (y_slots y) d in
+    let! slots := clocks_update (y_slots y) d in
     let! ws := waiters_update (y_waiters y) d (info_of slots) (y_frames y) in
     Ok {| y_slots := slots; y_waiters := ws; y_frames := y_frames y + frames; y_dt := y_dt y; y_buf := y_buf y |}.
 
@@ -207,10 +235,10 @@ Section Generic.
   Definition chunks_of (buf frames : Z) : list Z :=
     if (buf <=? 0) || (frames <=? 0) then []
     else repeat buf (Z.to_nat (frames / buf)) ++ (if frames mod buf =? 0 then [] else [frames mod buf]).
-  Fixpoint sys_chunks (fuel : nat) (y : sys) (l : list Z) : outcome sys :=
+  Fixpoint sys_chunks (y : sys) (l : list Z) : outcome sys :=
     match l with
     | [] => Ok y
-    | n :: l' => let! y' := sys_chunk fuel y n in sys_chunks fuel y' l'
+    | n :: l' => let! y' := sys_chunk y n in sys_chunks y' l'
     end.
 
   Definition upd_slot (y : sys) (k : nat) (f : slot -> slot) : sys :=
@@ -230,7 +258,7 @@ Section Generic.
   | OStartProcessing                                  (* Renderer::on_start_processing *)
   | OProcess (frames : Z).                            (* Renderer::process *)
 
-  Definition sys_step (fuel : nat) (y : sys) (o : op) : outcome sys :=
+  Definition sys_step (y : sys) (o : op) : outcome sys :=
     match o with
     | OAddClock sp =>
         Ok {| y_slots := y_slots y ++ [{| sl_life := Pending; sl_marked := false; sl_clock := clock_new (Fixed sp);
@@ -255,12 +283,12 @@ Section Generic.
     | OStartProcessing =>
         Ok {| y_slots := map slot_on_start (y_slots y); y_waiters := y_waiters y; y_frames := y_frames y;
               y_dt := y_dt y; y_buf := y_buf y |}
-    | OProcess frames => sys_chunks fuel y (chunks_of (y_buf y) frames)
+    | OProcess frames => sys_chunks y (chunks_of (y_buf y) frames)
     end.
-  Fixpoint sys_run (fuel : nat) (y : sys) (ops : list op) : outcome sys :=
+  Fixpoint sys_run (y : sys) (ops : list op) : outcome sys :=
     match ops with
     | [] => Ok y
-    | o :: ops' => let! y' := sys_step fuel y o in sys_run fuel y' ops'
+    | o :: ops' => let! y' := sys_step y o in sys_run y' ops'
     end.
 
   (** [ClockHandle::ticking] / [ClockHandle::time] (sequential view) *)
